@@ -4,6 +4,7 @@ import (
 	"bufio"
 	"bytes"
 	"context"
+	"errors"
 	"fmt"
 	iofs "io/fs"
 	"math/rand"
@@ -20,9 +21,11 @@ import (
 
 	"hpverif/internal/core"
 	"hpverif/internal/fsx"
+	"hpverif/internal/kvs"
 
 	"github.com/hack-pad/hackpadfs"
 	"github.com/hack-pad/hackpadfs/cache"
+	"github.com/hack-pad/hackpadfs/keyvalue"
 	"github.com/hack-pad/hackpadfs/mem"
 	"github.com/hack-pad/hackpadfs/mount"
 	hpos "github.com/hack-pad/hackpadfs/os"
@@ -101,7 +104,7 @@ func c04shape(s string) string {
 var c04ops = []string{"Open", "OpenFile", "Create", "Mkdir", "MkdirAll", "Remove", "RemoveAll", "Stat", "Lstat", "LstatOrStat", "Chmod", "Chown", "Chtimes", "ReadDir", "ReadFile", "WriteFullFile", "Sub",
 	"Rename:1", "Rename:2", "Rename:both", "Symlink:1", "Symlink:2", "Symlink:both"}
 
-var c04subjects = []string{"mem", "kvplain", "mount", "sub", "sub-os", "cache", "tar", "os", "tar-broken", "mount-nested", "sub-mount", "sub-dot"}
+var c04subjects = []string{"mem", "kvplain", "mount", "sub", "sub-os", "cache", "tar", "os", "tar-broken", "mount-nested", "sub-mount", "sub-dot", "kv-store-down", "kv-txn-store-down"}
 
 // c04parts are the constituent file systems whose state must not change.
 type c04subject struct {
@@ -124,6 +127,35 @@ func newC04Subject(env *core.Env, name string, populatedState bool) (*c04subject
 	}
 	s := &c04subject{parts: map[string]hackpadfs.FS{}, cleanup: func() {}}
 	switch name {
+	case "kv-txn-store-down":
+		// the same with a store that has transactions of its own and refuses to open one
+		w := kvs.WrapTxn(mem.NewStoreVerif(), nil)
+		k, err := keyvalue.NewFS(w)
+		if err != nil {
+			return nil, err
+		}
+		if err := buildTree(k, items); err != nil {
+			return nil, err
+		}
+		w.Hook = func(kvs.Event) error { return errors.New("the store is down") }
+		s.fs = k
+		s.parts["self"] = k
+		return s, nil
+	case "kv-store-down":
+		// a key-value file system whose store has stopped answering (every call fails): an invalid name is an invalid name
+		// all the same - it is refused as such, not with the store's error
+		p := kvs.NewPlain()
+		k, err := keyvalue.NewFS(p)
+		if err != nil {
+			return nil, err
+		}
+		if err := buildTree(k, items); err != nil {
+			return nil, err
+		}
+		p.Hook = func(kvs.Event) error { return errors.New("the store is down") }
+		s.fs = k
+		s.parts["self"] = k
+		return s, nil
 	case "mount-nested":
 		// a mount.FS mounted inside a mount.FS: m -> inner mount FS, whose m2 is again a mount point
 		root, _ := mem.NewFS()
@@ -240,7 +272,9 @@ func newC04Subject(env *core.Env, name string, populatedState bool) (*c04subject
 		dst, _ := mem.NewFS()
 		// (two members whose names are spelled with a doubled leading slash and with a climb right after the root: both
 		// resolve inside the root; an archive holding them unpacks, and valid names are looked up as usual)
-		archive := buildTarVerbatim(append(append([]treeItem(nil), items...), treeItem{Path: "//abs2/file", Perm: 0o644, Data: "abs"}, treeItem{Path: "/../up.txt", Perm: 0o644, Data: "up"}))
+		archive := buildTarVerbatim(append(append([]treeItem(nil), items...), treeItem{Path: "//abs2/file", Perm: 0o644, Data: "abs"}, treeItem{Path: "/../up.txt", Perm: 0o644, Data: "up"},
+			// (members beyond the small buffer are written by another code path: one spelled ./x, one a//b)
+			treeItem{Path: "./zbig1.bin", Perm: 0o644, Data: strings.Repeat("B", 160<<10)}, treeItem{Path: "d//zbig2.bin", Perm: 0o600, Data: strings.Repeat("b", 151<<10)}))
 		if name == "tar-broken" {
 			// the archive ends inside its last entry: unpacking fails, and every later call goes through the FS's failure paths
 			// (directories only before it: they are created in the foreground, so nothing is still being written when Done() closes)
@@ -428,7 +462,7 @@ func c04run(env *core.Env, idx int) core.CaseResult {
 		}
 	}
 	// entries with unusual valid names that exist are found under their names (on every kind, also after being unpacked or cached)
-	if cs.Populated && cs.Op == "Stat" && cs.Subject != "tar-broken" && cs.Subject != "sub-mount" { // (sub-mount is a view of d: other names)
+	if cs.Populated && cs.Op == "Stat" && cs.Subject != "tar-broken" && cs.Subject != "sub-mount" && !strings.HasPrefix(cs.Subject, "kv-") { // (sub-mount is a view of d: other names)
 		for _, name := range c04unusualItems {
 			r := fsx.Exec(sub.fs, fsx.Step{K: "Stat", P: name}, &hs, nil)
 			res.Count("valid_calls", 1)
